@@ -313,6 +313,53 @@ def build_matrix_builder(kind: str) -> LayerBuilder:
                     f = b.dynend_field(f"f{k}", pair, u8, "255")
                 _svc2(b, k, f"sf{k}", [b.value("pre", u8), b.value("list", f)], [b.value("list", f)])
                 k += 1
+    elif kind == "lengths":
+        # PARAM-LENGTH-INFO-TYPE objects (length given by a LENGTH-KEY parameter, in bits) at bit positions 0 and 4,
+        # with example PDUs for the lengths 0 (an object of zero bits), 8 and 16
+        for base, bitposs in (("A_UINT32", (0, 4)), ("A_INT32", (0,)), ("A_BYTEFIELD", (0,)), ("A_ASCIISTRING", (0,))):
+            for bitpos in bitposs:
+                lk = b.length_key(f"len{k}", u8)
+                d = b.dop(f"pl{k}", b.param_length(base, lk))
+                lk2 = b.length_key(f"rlen{k}", u8)
+                d2 = b.dop(f"rpl{k}", b.param_length(base, lk2))
+                _svc2(b, k, f"pl{k}", [lk, b.value("v", d, bit_position=bitpos)],
+                      [lk2, b.value("v", d2, bit_position=bitpos), b.value("post", u8)])
+                tail = b"\x41\x42\x43"
+                b.examples[f"rq_pl{k}"] = [bytes([0x31, k, 0]).hex(), bytes([0x31, k, 0, 0]).hex(),
+                                           (bytes([0x31, k, 8]) + tail[:2]).hex(), (bytes([0x31, k, 16]) + tail).hex()]
+                b.examples[f"rs_pl{k}"] = [bytes([0x71, k, 0, 0x55]).hex(), (bytes([0x71, k, 8]) + tail).hex()]
+                k += 1
+    elif kind == "ambig":
+        # services whose coding objects cannot be told apart by their constant parts: two positive responses of the
+        # same shape, negative responses that differ only in (overlapping) NRC lists and in length
+        u16 = b.dop("m_u16", b.slt(bits=16))
+        for shape in ("two_pos_same", "two_pos_len", "neg_overlap"):
+            rq = b.request(f"rq_am{k}", [b.coded_const("sid", 0x31), b.coded_const("sub", k), b.value("v", u8)])
+            head = [("sid", 0x71), ("sub", k)]
+            if shape == "two_pos_same":
+                pos = [b.response(f"rs_am{k}_a", [b.coded_const(n, v) for n, v in head] + [b.value("x", u8)]),
+                       b.response(f"rs_am{k}_b", [b.coded_const(n, v) for n, v in head] + [b.value("y", u8)])]
+                neg = []
+                b.examples[f"rs_am{k}_a"] = [bytes([0x71, k, 5]).hex()]
+                b.examples[f"rs_am{k}_b"] = [bytes([0x71, k, 5]).hex()]
+            elif shape == "two_pos_len":
+                pos = [b.response(f"rs_am{k}_a", [b.coded_const(n, v) for n, v in head] + [b.value("x", u8)]),
+                       b.response(f"rs_am{k}_b", [b.coded_const(n, v) for n, v in head] + [b.value("y", u16)])]
+                neg = []
+                b.examples[f"rs_am{k}_a"] = [bytes([0x71, k, 5]).hex(), bytes([0x71, k, 5, 6]).hex()]
+                b.examples[f"rs_am{k}_b"] = [bytes([0x71, k, 5, 6]).hex()]
+            else:
+                pos = [b.response(f"rs_am{k}", [b.coded_const(n, v) for n, v in head] + [b.value("x", u8)])]
+                neg = [b.response(f"ng_am{k}_a", [b.coded_const("sid", 0x7F), b.coded_const("rq_sid", 0x31),
+                                                  b.nrc_const("nrc", [0x22, 0x24, 0x31])], "NEGATIVE"),
+                       b.response(f"ng_am{k}_b", [b.coded_const("sid", 0x7F), b.coded_const("rq_sid", 0x31),
+                                                  b.nrc_const("nrc", [0x13, 0x31, 0x33]), b.value("detail", u8)],
+                                  "NEGATIVE")]
+                b.examples[f"ng_am{k}_a"] = [bytes([0x7F, 0x31, 0x31]).hex(), bytes([0x7F, 0x31, 0x31, 7]).hex(),
+                                             bytes([0x7F, 0x31, 0x22]).hex()]
+                b.examples[f"ng_am{k}_b"] = [bytes([0x7F, 0x31, 0x31, 7]).hex(), bytes([0x7F, 0x31, 0x13, 0]).hex()]
+            b.service(f"am{k}", rq, pos, neg)
+            k += 1
     elif kind == "bad":
         # descriptions that violate the specification: illegal base type / encoding combinations and
         # bit lengths.  Strict mode reports them as errors, lenient mode downgrades them (C17 only).
@@ -346,8 +393,13 @@ def build_matrix_builder(kind: str) -> LayerBuilder:
     return b
 
 
-MATRIX_KINDS = ["minmax", "leading", "strings", "ints", "structs"]
+MATRIX_KINDS = ["minmax", "leading", "strings", "ints", "structs", "lengths", "ambig"]
 
 
 def build_matrix_layer(kind: str):
     return build_matrix_builder(kind).build()
+
+
+def matrix_examples(kind: str) -> Dict[str, List[str]]:
+    """Example PDUs recorded by the builder (valid by construction), per coding object."""
+    return dict(build_matrix_builder(kind).examples)
